@@ -4,6 +4,7 @@
 #include "meshwrap.hh"
 #include <memory>
 #include <cmath>
+#include <OpenVolumeMesh/Attribs/OpenVolumeMeshStatus.hh>
 
 namespace vf {
 
@@ -95,6 +96,13 @@ template <> struct Val<VertexHandle> {
     static const char *name() { return "vh"; }
 };
 
+template <> struct Val<ovm::OpenVolumeMeshStatus> {
+    using S = ovm::OpenVolumeMeshStatus;
+    static S make(Rng &r) { S s; s.set_selected(r.chance(1, 2)); s.set_tagged(r.chance(1, 2)); s.set_hidden(r.chance(1, 2)); return s; }   // the deleted bit drives garbage collection: not touched
+    static std::string repr(const S &s) { return std::string(s.selected() ? "S" : "s") + (s.tagged() ? "T" : "t") + (s.deleted() ? "D" : "d") + (s.hidden() ? "H" : "h"); }
+    static const char *name() { return "status"; }
+};
+
 // entity kinds for properties: 0 V, 1 E, 2 HE, 3 F, 4 HF, 5 C, 6 M
 template <class ET> struct PKind;
 template <> struct PKind<ovm::Entity::Vertex>   { static constexpr int k = 0; };
@@ -121,6 +129,11 @@ struct IProp {
     virtual std::string def() const = 0;
     virtual bool attached() const = 0;
     virtual std::string iter_get(int idx) const = 0; // via begin()+idx
+    // rename + set_shared + set_persistent on the given mesh ("" on success, otherwise what was thrown)
+    bool republished = false;
+    virtual std::string republish(ovm::ResourceManager &, const std::string &) { return "unsupported"; }
+    // the property of this name/type/kind in another mesh: -1 not found, 0 different values, 1 equal
+    virtual int equal_in(ovm::ResourceManager &) const { return -2; }
 };
 
 template <class T, class ET>
@@ -146,6 +159,33 @@ struct PropT : IProp {
         p[H(0)] = old;
         return same;
     }
+    std::string republish(ovm::ResourceManager &rm, const std::string &nn) override {
+        try { p.set_name(nn); rm.set_shared(p, true); rm.set_persistent(p, true); } catch (const std::exception &e) { return std::string("threw ") + e.what(); }
+        name = nn; flavour = 2; republished = true; return "";
+    }
+    int equal_in(ovm::ResourceManager &other) const override {
+        auto o = other.template get_property<T, ET>(name);
+        if (!o) return -1;
+        if (o->size() != p.size()) return 0;
+        for (size_t i = 0; i < p.size(); ++i) if (Val<T>::repr((*o)[H((int)i)]) != Val<T>::repr(p[H((int)i)])) return 0;
+        return 1;
+    }
+};
+
+// a property reached only through the accessor of an attribute class (ColorAttrib, StatusAttrib, ...)
+template <class A, class HT, class T, int PK>
+struct AttribProp : IProp {
+    std::shared_ptr<A> a; std::string defrepr;
+    AttribProp(std::shared_ptr<A> at, const std::string &lab, const std::string &dr) : a(std::move(at)), defrepr(dr) { kind = PK; label = lab; }
+    size_t size() const override { return (size_t)-1; }   // attribute classes do not expose the size of their arrays
+    std::string get(int idx) const override { const A &c = *a; T v = c[HT(idx)]; return Val<T>::repr(v); }
+    std::string get_at(int idx) const override { return get(idx); }
+    std::string iter_get(int idx) const override { return get(idx); }
+    std::string set_random(int idx, Rng &r) override { T v = Val<T>::make(r); (*a)[HT(idx)] = v; return Val<T>::repr(v); }
+    std::string def() const override { return defrepr; }
+    bool attached() const override { return true; }
+    bool findable_in(ovm::ResourceManager &) const override { return false; }
+    bool same_storage_as_found(ovm::ResourceManager &, Rng &) override { return false; }
 };
 
 } // namespace vf
